@@ -46,6 +46,12 @@ CHECKS = {
     'C18': dict(level='model_checking', ref='7 C18', technique='TLA+ operator specification Cookie.tla (properties as ASSUME over the universe, vectors via JsonSerialize) + Ike.tla cookie scenario (action property CookieFirst) + TLC + replay',
                 text='TLC checks CookieFirst / Bound / RetryAccepted on Cookie.tla over all half-open counts around the threshold x (SPI, nonce, address) x cookie lists and writes the cases as vectors; each vector is built concretely (third endpoint for the address binding) and reply kind, DH operations and table growth are compared. ' + IKE + ' (scenario init_cookie: DH counters per step, duplicate COOKIE responses).',
                 note='cookies are obtained black-box from an armed responder; a right cookie behind a wrong one is not constrained by the property; deterministic cookie secret in the closed world.'),
+    'C14': dict(level='exploration', ref='7 C14', technique='TLA+ byte-layout specification XfrmWire.tla (framing theorems by TLC, layout table validated against <linux/xfrm.h> by a C program) as oracle for the emitted netlink bytes; kernel-struct decoder / encoder in C',
+                text='The layout table of XfrmWire.tla is compared entry by entry with sizeof/offsetof printed by a C program compiled against the kernel headers; TLC checks length / attribute framing theorems and writes (intent, bytes) vectors; every request emitted by Xfrm.create_sa / delete_sa / create_policy / flush_* is compared byte for byte (seq / pid masked) and additionally decoded by the C program with the kernel structures and compared with the intent; ACQUIRE / EXPIRE / ack / error messages encoded by the C program are parsed by Xfrm.parse_message / send_recv.',
+                note='kernel headers of this image; x86-64 little endian; universe of selectors / ports / protocols / algorithms / lifetimes / SPIs / indices as listed in the evidence.'),
+    'C15': dict(level='model_checking', ref='7 C15', technique='TLA+ model Policies.tla (kernel SPD/SAD surviving start / crash / stop / leftovers; AfterStart, AfterStop, AcquireMaps) + TLC + replay of every transition against a persistent kernel model',
+                text='TLC checks AfterStart / AfterStop / AcquireMaps over all interleavings of start, negotiate, crash, stop and leftovers for four configurations; every transition is replayed with the real Configuration / IkeSaController against a kernel model that survives incarnations, and the decoded SPD is compared with an independent reading of the configuration dictionary (out/in/fwd triple, index<<3|dir, selectors, protocol, mode, tunnel endpoints, masks); ACQUIREs for every entry (corner and interior selectors) are followed to the message that carries TS/SA and compared with the entry; unknown indices are ignored.',
+                note='three protect entries over two connections (IPv4 ESP transport, IPv4 AH tunnel with ports, IPv6 ESP tunnel with index 2^20).'),
     'C16': dict(level='model_checking', ref='7 C16', technique='TLA+ model (table as a sequence: NoDupTable, HeldAreListed, routing) + TLC + replay of every transition',
                 text=IKE + '; the IKE_SA table is compared as a sequence and the IKE_SA that processed each datagram is recorded.',
                 note='two endpoints; simultaneous initiations and rekeys give several IKE_SAs per endpoint.'),
